@@ -16,10 +16,14 @@ pub struct DistOracle {
 }
 
 pub fn weights_exact(s: &Snap) -> bool {
-    s.edges.iter().all(|e| {
+    let coarse = s.edges.iter().all(|e| {
         let w = e.2;
         w.is_finite() && w >= 0.0 && w <= 4096.0 && (w * 64.0).fract() == 0.0
-    })
+    });
+    // multiples of 2^-41 whose grand total (each edge counted twice, as in degree sums) stays below 2^11:
+    // every partial sum then fits in 52 bits
+    let fine = s.edges.iter().all(|e| e.2.is_finite() && e.2 >= 0.0 && (e.2 * (2.0f64).powi(41)).fract() == 0.0) && 2.0 * s.edges.iter().map(|e| e.2).sum::<f64>() <= 2048.0;
+    coarse || fine
 }
 
 impl DistOracle {
@@ -52,6 +56,84 @@ impl DistOracle {
             }
         }
         DistOracle { n, hop, adj, d, exact: hop || weights_exact(s) }
+    }
+
+    /// The floating-point reading of "shortest" for weights whose sums are not exact: d(s,v) is the least
+    /// fixpoint of d(s,v) = min over edges (u,v) of fl(d(s,u) + w(u,v)) - what every relaxation-based search
+    /// computes, whatever its visiting order - and two paths tie iff their accumulated lengths are equal bit
+    /// for bit. (Requires non-negative weights.)
+    pub fn new_float(s: &Snap) -> DistOracle {
+        let n = s.n();
+        let mut adj = s.adj_min(false);
+        for (u, l) in adj.iter_mut().enumerate() {
+            l.retain(|x| x.0 != u);
+        }
+        let mut d = vec![vec![INF; n]; n];
+        for src in 0..n {
+            let row = &mut d[src];
+            row[src] = 0.0;
+            let mut done = vec![false; n];
+            loop {
+                let mut u = usize::MAX;
+                for i in 0..n {
+                    if !done[i] && row[i] < INF && (u == usize::MAX || row[i] < row[u]) {
+                        u = i;
+                    }
+                }
+                if u == usize::MAX {
+                    break;
+                }
+                done[u] = true;
+                for &(v, w) in &adj[u] {
+                    let nd = row[u] + w;
+                    if nd < row[v] {
+                        row[v] = nd;
+                    }
+                }
+            }
+        }
+        DistOracle { n, hop: false, adj, d, exact: true }
+    }
+
+    /// betweenness by Brandes' accumulation over the tight-edge predecessor relation (equal to the
+    /// pair-sum definition; usable when ties are decided on accumulated path lengths)
+    pub fn betweenness_brandes(&self, normalized: bool, directed: bool) -> Vec<f64> {
+        let n = self.n;
+        let mut b = vec![0.0; n];
+        for s in 0..n {
+            let sig = self.sigma_from(s);
+            let mut order: Vec<usize> = (0..n).filter(|t| self.d[s][*t] < INF).collect();
+            order.sort_by(|a, b| self.d[s][*a].partial_cmp(&self.d[s][*b]).unwrap().then(a.cmp(b)));
+            let mut delta = vec![0.0; n];
+            for &w in order.iter().rev() {
+                if w == s {
+                    continue;
+                }
+                for u in 0..n {
+                    if self.d[s][u] == INF || sig[u] == 0.0 {
+                        continue;
+                    }
+                    if let Some(&(_, wt)) = self.adj[u].iter().find(|x| x.0 == w) {
+                        if self.tight(s, u, w, wt) && sig[w] > 0.0 {
+                            delta[u] += sig[u] / sig[w] * (1.0 + delta[w]);
+                        }
+                    }
+                }
+                b[w] += delta[w];
+            }
+        }
+        let scale = if normalized {
+            if n > 2 {
+                1.0 / ((n as f64 - 1.0) * (n as f64 - 2.0))
+            } else {
+                1.0
+            }
+        } else if directed {
+            1.0
+        } else {
+            0.5
+        };
+        b.iter().map(|x| x * scale).collect()
     }
 
     fn tight(&self, s: usize, u: usize, v: usize, w: f64) -> bool {
